@@ -78,8 +78,8 @@ func (*c14Prop) Components() map[string]interface{} {
 func (*c14Prop) Plans(tier string) []Plan {
 	if tier == "quick" {
 		return []Plan{
-			{Name: "plain", Workers: 16, Runs: 3000, MaxTime: 30e9},
-			{Name: "race", Race: true, Workers: 16, Runs: 1800, MaxTime: 35e9},
+			{Name: "plain", Workers: 16, Runs: 2500, MaxTime: 20e9},
+			{Name: "race", Race: true, Workers: 16, Runs: 1500, MaxTime: 28e9},
 			{Name: "race-cold", Race: true, Workers: 16, Runs: 1, MaxTime: 30e9, Cold: true},
 			{Name: "deep", Variant: 1, Workers: 8, Runs: 6, MaxTime: 25e9},
 		}
@@ -218,9 +218,22 @@ func (*c14Prop) Gen(r *Rand, pl *Plan) Case {
 			c.Warm = append(c.Warm, c14Task{Graph: g, Input: c.Graphs[g].genInput(r), Eval: r.Bool() && (c.Graphs[g].Kind != "grammar" || c.Graphs[g].Interp)})
 		}
 	case 1:
-		for k := r.Range(20, 60); k > 0; k-- {
+		k := r.Range(20, 60)
+		heavy := r.Chance(1, 6)
+		if heavy {
+			k = r.Range(300, 500) // a long-lived grammar: thousands of tokens seen before the concurrent phase
+		}
+		for ; k > 0; k-- {
 			g := r.Intn(ng)
-			c.Warm = append(c.Warm, c14Task{Graph: g, Input: c.Graphs[g].genInput(r)})
+			in := c.Graphs[g].genInput(r)
+			if heavy && c.Graphs[g].Kind == "tokens" {
+				var sb strings.Builder
+				for j := r.Range(4, 10); j > 0; j-- {
+					sb.WriteString(" " + identFromPool(r.Intn(1600)))
+				}
+				in = sb.String()
+			}
+			c.Warm = append(c.Warm, c14Task{Graph: g, Input: in})
 		}
 	}
 	c.Sched = genSched(r, nt, 3000)
@@ -416,7 +429,7 @@ func c14Run(c *c14Case, probeSequential bool) Verdict {
 		// the warm-up parses run as ONE simulated task under a step budget: an ambiguous
 		// seeded grammar can blow up on a generated input, and nothing outside the
 		// simulator bounds a parse
-		winfo := runTasks(1, &SchedSpec{HasExpl: true, StepCap: 3000000}, func(int64) {
+		winfo := runTasks(1, &SchedSpec{HasExpl: true, StepCap: 30000000}, func(int64) {
 			for i := range c.Warm {
 				w := &c.Warm[i]
 				if w.Graph >= 0 && w.Graph < len(shared) {
